@@ -152,6 +152,8 @@ def run_model_balanced(programs, costs):
     chunks carry about the same estimated cost (padding with trivial requests so
     that the chunk boundaries fall where intended).  Answers in the given order."""
     n = len(programs)
+    if hasattr(common, "ensure_runner"):       # (re)build once, not once per worker thread
+        common.ensure_runner("tensor")
     if n < 2000:
         return common.run_model_parallel("tensor", programs, jobs=JOBS)
     size = (n + JOBS - 1) // JOBS
@@ -999,7 +1001,10 @@ def run(tier, seed):
     timpl = [ti.observe(p) for _, p in tprogs]
 
     # ---------------------------------------------------------------- model (one parallel call)
-    costcap = 6e8 if quick else 3e10
+    # programs whose estimated model cost exceeds the cap are checked by the oracle only
+    # (cups / caps of Dim(2, 3, 2) take the unary-arithmetic model about 750 s each);
+    # VERIF_C08_MODEL_COSTCAP overrides the cap (3e10 lets everything through)
+    costcap = float(os.environ.get("VERIF_C08_MODEL_COSTCAP", "") or (6e8 if quick else 5e9))
     tinfo = [analyse(p) for _, p in tprogs]
     sendable = [i for i, (_, cost, _) in enumerate(tinfo) if cost <= costcap]
     programs = [q for _, q in nreqs] + [tprogs[i][1] for i in sendable]
